@@ -48,6 +48,9 @@ MSG_SPECS_QUICK = [
     ('x25519/AES256/40', [('key', 'x25519')], 'AES256', 40, 'Uncompressed'),
     ('rsa/AES128/1', [('key', 'rsa')], 'AES128', 1, 'Uncompressed'),
     ('pw+x25519/AES128/40', [('pw', 'SHA256'), ('key', 'x25519')], 'AES128', 40, 'Uncompressed'),
+    # recipients whose self-certification does not advertise modification detection (no Features subpacket / flag not set)
+    ('x25519old/AES128/40', [('key', 'x25519old')], 'AES128', 40, 'Uncompressed'),
+    ('x25519f0/CAST5/1', [('key', 'x25519f0')], 'CAST5', 1, 'Uncompressed'),
 ]
 MSG_SPECS_THOROUGH = MSG_SPECS_QUICK + [
     ('p256/Camellia256/40', [('key', 'p256')], 'Camellia256', 40, 'Uncompressed'),
@@ -59,6 +62,7 @@ MSG_SPECS_THOROUGH = MSG_SPECS_QUICK + [
 ]
 
 MSGS = []      # filled in the parent before the pool is forked
+UNPROTECTED = []
 
 
 def _encrypt(m, recips, cipher, sk):
@@ -75,6 +79,7 @@ def _encrypt(m, recips, cipher, sk):
 
 def build_messages(tier, rnd):
     del MSGS[:]
+    del UNPROTECTED[:]
     for name, recips, cname, blen, comp in (MSG_SPECS_THOROUGH if tier == 'thorough' else MSG_SPECS_QUICK):
         cipher = getattr(SymmetricKeyAlgorithm, cname)
         body = rnd.randbytes(blen)
@@ -86,7 +91,11 @@ def build_messages(tier, rnd):
         raw = bytes(_encrypt(m, recips, cipher, sk))
         raws = [bytes(_encrypt(x, recips, cipher, sk)) for x in (m2, m3)]
         pk = indep.packets(raw)
-        assert [t for t, _, _ in pk][-1] == 18
+        if [t for t, _, _ in pk][-1] != 18:
+            # not an integrity protected message at all: every change of it decrypts to something else without an error (reported as it is;
+            # the mutation generators below are written for the tag 18 layout)
+            UNPROTECTED.append((name, [t for t, _, _ in pk], raw))
+            continue
         # offsets of the packet bodies inside raw
         spans, off = [], 0
         for t, b, r in pk:
@@ -426,6 +435,11 @@ def component(tier='quick', seed=0, known=()):
             else:
                 by_sig[sig] = {'case': case, 'what': bad}
                 violations.append(by_sig[sig])
+    for name, tags, raw in UNPROTECTED:
+        total_bad += 1
+        violations.append({'case': {'message': name, 'mutation': 'none', 'outcome': 'UNPROTECTED', 'packet_tags': tags, 'original_hex': raw.hex()},
+                           'what': 'encrypt produced a message without integrity protection for %s: packet tags %r, expected session-key packets then 18 '
+                                   '(a tag 9 packet decrypts to other plaintext after any change, without an error)' % (name, tags)})
     nsecret = sum(1 for r in results if r[2] == 'secret')
     ncontrol = sum(1 for r in results if r[1].startswith('control'))
     nblobs = sum(nmut.values())
